@@ -1,6 +1,504 @@
 import KoordVerif.Model.C09
+/-
+C09 — property theorems (DESIGN.md §4 C09).  The float64 operations are a parameter `F`; the
+theorems assume only the algebraic facts collected in `FloatOK` (the harness tests them on every
+generated input).  All statements are universally quantified over strategies, nodes, pod lists,
+metrics and amounts; no bound on list lengths or magnitudes.
+-/
 namespace KoordVerif.C09
 
-theorem wip_placeholder : isHP .prod = true := by decide
+/-- assumptions on the float64 helpers (`int64(float64(v)*(k/100))`, `int64(ceil(v/n))`). -/
+structure FloatOK (F : FloatOps) : Prop where
+  mul_nonneg : ∀ v k, 0 ≤ v → 0 ≤ k → 0 ≤ F.mulPct v k
+  mul_le     : ∀ v k, 0 ≤ v → 0 ≤ k → k ≤ 100 → F.mulPct v k ≤ v
+  mul_mono_k : ∀ v k k', 0 ≤ v → k ≤ k' → F.mulPct v k ≤ F.mulPct v k'
+  div_nonneg : ∀ a n, 0 ≤ a → 0 < n → 0 ≤ F.divCeil a n
+  div_mono   : ∀ a b n, a ≤ b → 0 < n → F.divCeil a n ≤ F.divCeil b n
+
+/-- the exact-rational instance satisfies the assumptions (they are consistent). -/
+def exactOps : FloatOps := { mulPct := fun v k => v * k / 100, divCeil := fun v n => (v + n - 1) / n }
+
+/-- the amount the statement subtracts for the configured policy: "what high-priority pods use
+    (or request, or the larger of both, per the configured policy)". -/
+def literalHP (pol : Policy) (hpReq hpUsed hpMax : Int) : Int :=
+  match pol with
+  | .request => hpReq
+  | .maxUR => hpMax
+  | _ => hpUsed
+
+/-! ### 1. never negative -/
+
+theorem byPolicy_nonneg (d : Dim) (pol : Policy) (cl : Option Int) (cap margin reserved sys a b c : Int)
+    (hcl : ∀ l, cl = some l → 0 ≤ l) : 0 ≤ byPolicy d pol cl cap margin reserved sys a b c := by
+  unfold byPolicy pickPolicy
+  cases cl with
+  | none => cases d <;> cases pol <;> simp <;> omega
+  | some l =>
+    have := hcl l rfl
+    cases d <;> cases pol <;> simp <;> split <;> omega
+
+theorem batch_nonneg (F : FloatOps) (hF : FloatOK F) (k : PrioConsts) (s : Strategy) (n : NodeIn) (hs : List HostApp)
+    (pods : List PodIn) (ms : List Metric) (d : Dim)
+    (hcap : 0 ≤ n.cap d) (hpct : ∀ p, s.cap d = some p → 0 ≤ p) :
+    0 ≤ nodeBatch F k s n hs pods ms d := by
+  unfold nodeBatch nodeBatchR
+  apply byPolicy_nonneg
+  intro l hl
+  unfold capLimit at hl
+  cases hc : s.cap d with
+  | none => simp [hc] at hl
+  | some p =>
+    simp [hc] at hl
+    rw [← hl]; exact hF.mul_nonneg _ _ hcap (hpct p hc)
+
+/-! ### 2. upper bound: out ≤ cap − margin − max(sys, reserved) − HP(policy), or 0 -/
+
+/-- full-strength bound for every policy except `request`. -/
+theorem byPolicy_upper (d : Dim) (pol : Policy) (cl : Option Int) (cap margin reserved sys hpReq hpUsed hpMax : Int)
+    (hpol : pol ≠ .request) :
+    byPolicy d pol cl cap margin reserved sys hpReq hpUsed hpMax ≤
+      max (cap - margin - max sys reserved - literalHP pol hpReq hpUsed hpMax) 0 := by
+  unfold byPolicy pickPolicy literalHP
+  cases cl with
+  | none => cases d <;> cases pol <;> simp at hpol ⊢ <;> omega
+  | some l => cases d <;> cases pol <;> simp at hpol ⊢ <;> split <;> omega
+
+/-
+FULL STATEMENT (fails on the code as written, see the two counterexamples below):
+  ∀ d pol …, byPolicy d pol cl cap margin reserved sys hpReq hpUsed hpMax
+               ≤ max (cap − margin − max sys reserved − literalHP pol hpReq hpUsed hpMax) 0
+For pol = request the code (a) for memory subtracts only `reserved`, not `max sys reserved`
+(util.go batchAllocatableByRequest), (b) for CPU silently computes with the usage policy.
+Proved parts:
+-/
+theorem batch_upper_request_partial (cl : Option Int) (cap margin reserved sys hpReq hpUsed hpMax : Int) :
+    byPolicy .mem .request cl cap margin reserved sys hpReq hpUsed hpMax ≤ max (cap - margin - reserved - hpReq) 0 := by
+  unfold byPolicy pickPolicy
+  cases cl with
+  | none => simp
+  | some l => simp; split <;> omega
+
+theorem batch_upper_cpu_request_partial (cl : Option Int) (cap margin reserved sys hpReq hpUsed hpMax : Int) :
+    byPolicy .cpu .request cl cap margin reserved sys hpReq hpUsed hpMax ≤ max (cap - margin - max sys reserved - hpUsed) 0 := by
+  unfold byPolicy pickPolicy
+  cases cl with
+  | none => simp
+  | some l => simp; split <;> omega
+
+/-- memory, policy=request: cap 100, margin 0, reserved 0, system usage 30, no pods ⇒ 100 > 70. -/
+theorem batch_upper_request_counterexample :
+    ¬ (byPolicy .mem .request none 100 0 0 30 0 0 0 ≤ max (100 - 0 - max 30 0 - literalHP .request 0 0 0) 0) := by decide
+
+/-- cpu, policy=request: one HP pod requesting 40 and using 10 ⇒ 90 > 60. -/
+theorem batch_upper_cpu_request_counterexample :
+    ¬ (byPolicy .cpu .request none 100 0 0 0 40 10 40 ≤ max (100 - 0 - max 0 0 - literalHP .request 40 10 40) 0) := by decide
+
+/-- node level, in the terms of the statement. -/
+theorem batch_upper (F : FloatOps) (k : PrioConsts) (s : Strategy) (n : NodeIn) (hs : List HostApp)
+    (pods : List PodIn) (ms : List Metric) (d : Dim) (hpol : s.pol d ≠ .request) :
+    nodeBatch F k s n hs pods ms d ≤
+      max (n.cap d - safetyMargin F s d (n.cap d) - max (n.sys d + hostHPUsed k .batch hs d) (nodeReserved n d)
+            - literalHP (s.pol d) (hpReq d (resolvePods pods (metricMap ms)))
+                (hpUsed d (resolvePods pods (metricMap ms)) (dangling pods (metricMap ms)))
+                (hpMax d (resolvePods pods (metricMap ms)) (dangling pods (metricMap ms)))) 0 := by
+  unfold nodeBatch nodeBatchR
+  exact byPolicy_upper _ _ _ _ _ _ _ _ _ _ hpol
+
+/-- what the statement calls the usage of a pod: its metric, or its request while it has none. -/
+def literalUse (d : Dim) (p : RPod) : Int := if p.hasMetric then p.used d else p.req d
+
+/-- an LSE pod runs on exclusive cores: its cpu usage does not exceed its request. -/
+def LSEok (p : RPod) : Prop := p.lse = true → p.hasMetric = true → p.usedC ≤ p.reqC
+
+theorem chargeUsed_ge_literal (d : Dim) (p : RPod) (h : LSEok p) : literalUse d p ≤ chargeUsed d p := by
+  unfold literalUse chargeUsed
+  cases hm : p.hasMetric <;> cases hl : p.lse <;> cases d <;> simp [RPod.req, RPod.used]
+  exact h hl hm
+
+theorem chargeMax_ge (d : Dim) (p : RPod) : literalUse d p ≤ chargeMax d p ∧ p.req d ≤ chargeMax d p := by
+  unfold literalUse chargeMax
+  cases hm : p.hasMetric <;> simp <;> omega
+
+theorem sum_map_le {α} (f g : α → Int) (l : List α) (h : ∀ x ∈ l, f x ≤ g x) : (l.map f).sum ≤ (l.map g).sum := by
+  induction l with
+  | nil => simp
+  | cons x xs ih =>
+    simp only [List.map_cons, List.sum_cons]
+    have := h x (by simp)
+    have := ih (fun y hy => h y (by simp [hy]))
+    omega
+
+/-- usage policy, literal reading: the published amount stays below capacity − margin − max(system, reserved)
+    − Σ (usage of every HP pod, request for pods without metrics) − Σ dangling HP usage. -/
+theorem batch_upper_usage_literal (F : FloatOps) (k : PrioConsts) (s : Strategy) (n : NodeIn) (hs : List HostApp)
+    (ps : List RPod) (dg : List Metric) (d : Dim) (hpol : s.pol d = .usage ∨ s.pol d = .unset)
+    (hl : ∀ p ∈ ps, LSEok p) :
+    nodeBatchR F k s n hs ps dg d ≤
+      max (n.cap d - safetyMargin F s d (n.cap d) - max (n.sys d + hostHPUsed k .batch hs d) (nodeReserved n d)
+            - ((ps.map (literalUse d)).sum + (dg.map (fun m => m.used d)).sum)) 0 := by
+  have h1 := sum_map_le (literalUse d) (chargeUsed d) ps (fun p hp => chargeUsed_ge_literal d p (hl p hp))
+  have h2 : nodeBatchR F k s n hs ps dg d ≤ _ :=
+    byPolicy_upper d (s.pol d) (capLimit F s d (n.cap d)) (n.cap d) (safetyMargin F s d (n.cap d)) (nodeReserved n d)
+      (n.sys d + hostHPUsed k .batch hs d) (hpReq d ps) (hpUsed d ps dg) (hpMax d ps dg)
+      (by rcases hpol with h | h <;> simp [h])
+  have h3 : literalHP (s.pol d) (hpReq d ps) (hpUsed d ps dg) (hpMax d ps dg) = hpUsed d ps dg := by
+    rcases hpol with h | h <;> simp [h, literalHP]
+  rw [h3] at h2
+  unfold hpUsed at h2
+  omega
+
+/-! ### 3. percentage cap -/
+
+theorem byPolicy_le_limit (d : Dim) (pol : Policy) (l cap margin reserved sys a b c : Int) :
+    byPolicy d pol (some l) cap margin reserved sys a b c ≤ l := by
+  unfold byPolicy; simp only; split <;> omega
+
+theorem batch_pct_cap (F : FloatOps) (k : PrioConsts) (s : Strategy) (n : NodeIn) (hs : List HostApp)
+    (pods : List PodIn) (ms : List Metric) (d : Dim) (pct : Int) (h : s.cap d = some pct) :
+    nodeBatch F k s n hs pods ms d ≤ F.mulPct (n.cap d) pct := by
+  unfold nodeBatch nodeBatchR capLimit
+  rw [h]; exact byPolicy_le_limit _ _ _ _ _ _ _ _ _ _
+
+/-- with a percentage ≤ 100 the published amount never exceeds the capacity itself. -/
+theorem batch_le_capacity (F : FloatOps) (hF : FloatOK F) (k : PrioConsts) (s : Strategy) (n : NodeIn) (hs : List HostApp)
+    (pods : List PodIn) (ms : List Metric) (d : Dim) (pct : Int) (h : s.cap d = some pct)
+    (hcap : 0 ≤ n.cap d) (h0 : 0 ≤ pct) (h100 : pct ≤ 100) :
+    nodeBatch F k s n hs pods ms d ≤ n.cap d :=
+  Int.le_trans (batch_pct_cap F k s n hs pods ms d pct h) (hF.mul_le _ _ hcap h0 h100)
+
+/-! ### 4. antitone in every consumption input -/
+
+theorem byPolicy_antitone (d : Dim) (pol : Policy) (cl : Option Int)
+    (cap margin margin' reserved reserved' sys sys' a a' b b' c c' : Int)
+    (hm : margin ≤ margin') (hr : reserved ≤ reserved') (hs : sys ≤ sys') (ha : a ≤ a') (hb : b ≤ b') (hc : c ≤ c') :
+    byPolicy d pol cl cap margin' reserved' sys' a' b' c' ≤ byPolicy d pol cl cap margin reserved sys a b c := by
+  unfold byPolicy pickPolicy
+  cases cl with
+  | none => cases d <;> cases pol <;> simp <;> omega
+  | some l => cases d <;> cases pol <;> simp <;> split <;> split <;> omega
+
+/-- pointwise relation between two lists of the same length. -/
+inductive All2 {α : Type} (R : α → α → Prop) : List α → List α → Prop
+  | nil : All2 R [] []
+  | cons {a b : α} {as bs : List α} : R a b → All2 R as bs → All2 R (a :: as) (b :: bs)
+
+theorem sum_map_le2 {α : Type} (R : α → α → Prop) (f : α → Int) (hf : ∀ a b, R a b → f a ≤ f b)
+    (l l' : List α) (h : All2 R l l') : (l.map f).sum ≤ (l'.map f).sum := by
+  induction h with
+  | nil => simp
+  | cons hab _ ih => simp only [List.map_cons, List.sum_cons]; have := hf _ _ hab; omega
+
+/-- pod `q` is pod `p` with request and/or usage raised (same flags, same NUMA placement). -/
+def PodLe (p q : RPod) : Prop :=
+  p.lse = q.lse ∧ p.hasMetric = q.hasMetric ∧ p.numa = q.numa ∧
+  p.reqC ≤ q.reqC ∧ p.reqM ≤ q.reqM ∧ p.usedC ≤ q.usedC ∧ p.usedM ≤ q.usedM
+
+def MetLe (m m' : Metric) : Prop := m.usedC ≤ m'.usedC ∧ m.usedM ≤ m'.usedM
+def HostLe (h h' : HostApp) : Prop := h.prio = h'.prio ∧ h.usedC ≤ h'.usedC ∧ h.usedM ≤ h'.usedM
+
+theorem PodLe.req_le {p q : RPod} (h : PodLe p q) (d : Dim) : p.req d ≤ q.req d := by
+  obtain ⟨_, _, _, h1, h2, _, _⟩ := h; cases d <;> simp [RPod.req] <;> assumption
+
+theorem PodLe.used_le {p q : RPod} (h : PodLe p q) (d : Dim) : p.used d ≤ q.used d := by
+  obtain ⟨_, _, _, _, _, h1, h2⟩ := h; cases d <;> simp [RPod.used] <;> assumption
+
+theorem chargeUsed_mono (d : Dim) (p q : RPod) (h : PodLe p q) : chargeUsed d p ≤ chargeUsed d q := by
+  have hr := h.req_le d; have hu := h.used_le d
+  obtain ⟨hl, hm, _⟩ := h
+  unfold chargeUsed; rw [← hl, ← hm]
+  cases p.hasMetric <;> cases p.lse <;> cases d <;> simp <;> assumption
+
+theorem chargeMax_mono (d : Dim) (p q : RPod) (h : PodLe p q) : chargeMax d p ≤ chargeMax d q := by
+  have hr := h.req_le d; have hu := h.used_le d
+  obtain ⟨_, hm, _⟩ := h
+  unfold chargeMax; rw [← hm]
+  cases p.hasMetric <;> simp <;> omega
+
+theorem hostHPUsed_mono (k : PrioConsts) (r : Prio) (d : Dim) (hs hs' : List HostApp) (h : All2 HostLe hs hs')
+    (hnn : ∀ x ∈ hs, 0 ≤ x.used d) : hostHPUsed k r hs d ≤ hostHPUsed k r hs' d := by
+  unfold hostHPUsed
+  induction h with
+  | nil => simp
+  | @cons a b as bs hab _ ih =>
+    have ih' := ih (fun x hx => hnn x (by simp [hx]))
+    obtain ⟨hp, hc, hm⟩ := hab
+    have hle : a.used d ≤ b.used d := by cases d <;> simp [HostApp.used] <;> assumption
+    simp only [List.filter_cons, hp]
+    split <;> simp only [List.map_cons, List.sum_cons] <;> omega
+
+/-- the node-level amount never rises when: the reclaim threshold is lowered (larger safety margin),
+    system usage / annotation reservation rise, allocatable falls (larger kubelet reservation), HP host
+    applications use more, any HP pod's request or usage rises, any dangling HP metric rises. -/
+theorem batch_antitone (F : FloatOps) (hF : FloatOK F) (k : PrioConsts) (s s' : Strategy) (n n' : NodeIn)
+    (hs hs' : List HostApp) (ps ps' : List RPod) (dg dg' : List Metric) (d : Dim)
+    (hpol : s'.pol d = s.pol d) (hcl : s'.cap d = s.cap d) (hthr : s'.thr d ≤ s.thr d)
+    (hcap : n'.cap d = n.cap d) (hcap0 : 0 ≤ n.cap d)
+    (halloc : n'.alloc d ≤ n.alloc d) (hanno : n.anno d ≤ n'.anno d) (hsys : n.sys d ≤ n'.sys d)
+    (hhost : All2 HostLe hs hs') (hhost0 : ∀ x ∈ hs, 0 ≤ x.used d)
+    (hpods : All2 PodLe ps ps') (hdg : All2 MetLe dg dg') :
+    nodeBatchR F k s' n' hs' ps' dg' d ≤ nodeBatchR F k s n hs ps dg d := by
+  unfold nodeBatchR capLimit safetyMargin
+  rw [hpol, hcl, hcap]
+  have hdgs : (dg.map (fun m => m.used d)).sum ≤ (dg'.map (fun m => m.used d)).sum :=
+    sum_map_le2 MetLe _ (fun a b h => by cases d <;> simp [Metric.used] <;> [exact h.1; exact h.2]) _ _ hdg
+  apply byPolicy_antitone
+  · exact hF.mul_mono_k _ _ _ hcap0 (by omega)
+  · unfold nodeReserved kubeletReserved; rw [hcap]; omega
+  · have := hostHPUsed_mono k .batch d hs hs' hhost hhost0; omega
+  · exact sum_map_le2 PodLe _ (fun a b h => h.req_le d) _ _ hpods
+  · unfold hpUsed
+    have := sum_map_le2 PodLe _ (chargeUsed_mono d) _ _ hpods; omega
+  · unfold hpMax
+    have := sum_map_le2 PodLe _ (chargeMax_mono d) _ _ hpods; omega
+
+/-- a further high-priority pod (with non-negative request and usage) never raises the amount. -/
+theorem batch_antitone_new_pod (F : FloatOps) (k : PrioConsts) (s : Strategy) (n : NodeIn) (hs : List HostApp)
+    (p : RPod) (ps : List RPod) (dg : List Metric) (d : Dim) (hr : 0 ≤ p.req d) (hu : 0 ≤ p.used d) :
+    nodeBatchR F k s n hs (p :: ps) dg d ≤ nodeBatchR F k s n hs ps dg d := by
+  unfold nodeBatchR
+  apply byPolicy_antitone <;> try omega
+  · simp [hpReq]; omega
+  · have : 0 ≤ chargeUsed d p := by
+      unfold chargeUsed; cases p.hasMetric <;> cases p.lse <;> cases d <;> simp <;> assumption
+    simp [hpUsed]; omega
+  · have : 0 ≤ chargeMax d p := by unfold chargeMax; cases p.hasMetric <;> simp <;> omega
+    simp [hpMax]; omega
+
+/-! ### 5. pods without metrics are charged at their request — for all three policies -/
+
+theorem no_metric_charge (d : Dim) (p : RPod) (h : p.hasMetric = false) :
+    chargeUsed d p = p.req d ∧ chargeMax d p = p.req d := by
+  simp [chargeUsed, chargeMax, h]
+
+/-- whatever the policy, the amount subtracted for HP pods grows by exactly the request of a pod that
+    has not reported metrics yet (wherever it stands in the pod list). -/
+theorem no_metric_charged_at_request (d : Dim) (pol : Policy) (pre post : List RPod) (p : RPod) (dg : List Metric)
+    (h : p.hasMetric = false) :
+    literalHP pol (hpReq d (pre ++ p :: post)) (hpUsed d (pre ++ p :: post) dg) (hpMax d (pre ++ p :: post) dg) =
+      literalHP pol (hpReq d (pre ++ post)) (hpUsed d (pre ++ post) dg) (hpMax d (pre ++ post) dg) + p.req d := by
+  obtain ⟨h1, h2⟩ := no_metric_charge d p h
+  unfold literalHP hpReq hpUsed hpMax
+  cases pol <;> simp [List.map_append, List.sum_append, h1, h2] <;> omega
+
+/-- consequence for the published amount, all policies, in the code's own bound (which for
+    usage/maxUsageRequest is the statement's bound, see `byPolicy_upper`). -/
+theorem no_metric_lowers_batch (F : FloatOps) (k : PrioConsts) (s : Strategy) (n : NodeIn) (hs : List HostApp)
+    (pre post : List RPod) (p : RPod) (dg : List Metric) (d : Dim) (h : p.hasMetric = false) :
+    nodeBatchR F k s n hs (pre ++ p :: post) dg d =
+      byPolicy d (s.pol d) (capLimit F s d (n.cap d)) (n.cap d) (safetyMargin F s d (n.cap d)) (nodeReserved n d)
+        (n.sys d + hostHPUsed k .batch hs d)
+        (hpReq d (pre ++ post) + p.req d) (hpUsed d (pre ++ post) dg + p.req d) (hpMax d (pre ++ post) dg + p.req d) := by
+  obtain ⟨h1, h2⟩ := no_metric_charge d p h
+  unfold nodeBatchR hpReq hpUsed hpMax
+  simp only [List.map_append, List.sum_append, List.map_cons, List.sum_cons, h1, h2]
+  congr 1 <;> omega
+
+/-- raw level: a Running/Pending HP pod of the list whose key has no metric entry is resolved to a
+    metric-less pod carrying its request (so the lemmas above apply to it). -/
+theorem resolve_no_metric (pods : List PodIn) (mm : List Metric) (p : PodIn) (hp : p ∈ pods)
+    (hact : p.active = true) (hhp : isHP p.prio = true) (hno : findMetric mm p.key = none) :
+    ∃ rp ∈ resolvePods pods mm, rp.hasMetric = false ∧ rp.reqC = p.reqC ∧ rp.reqM = p.reqM := by
+  unfold resolvePods
+  refine ⟨_, List.mem_map.mpr ⟨p, List.mem_filter.mpr ⟨hp, by simp [hact, hhp]⟩, rfl⟩, ?_⟩
+  simp [hno]
+
+/-! ### 6. stale or missing node metrics withdraw the resource -/
+
+theorem degrade_resets (F : FloatOps) (k : PrioConsts) (s : Strategy) (n : NodeIn) (hs : List HostApp)
+    (pods : List PodIn) (ms : List Metric) (zs : List Zone) (hasUpd : Bool) (now upd : Int)
+    (h : hasUpd = false ∨ now > upd + s.degradeMin * 60) :
+    calculate F k s n hs pods ms zs hasUpd now upd = .degraded := by
+  unfold calculate isDegradeNeeded
+  rcases h with h | h
+  · simp [h]
+  · simp [h]
+
+/-- and only then (fresh metrics are never degraded). -/
+theorem fresh_not_degraded (F : FloatOps) (k : PrioConsts) (s : Strategy) (n : NodeIn) (hs : List HostApp)
+    (pods : List PodIn) (ms : List Metric) (zs : List Zone) (now upd : Int) (h : now ≤ upd + s.degradeMin * 60) :
+    calculate F k s n hs pods ms zs true now upd ≠ .degraded := by
+  unfold calculate isDegradeNeeded
+  have : ¬ (now > upd + s.degradeMin * 60) := by omega
+  simp [this]
+
+/-! ### 7. NUMA zones obey the same bounds per zone (amounts in milli units) -/
+
+theorem zone_nonneg (F : FloatOps) (hF : FloatOK F) (k : PrioConsts) (s : Strategy) (n : NodeIn) (hs : List HostApp)
+    (ps : List RPod) (dg : List Metric) (zn i : Nat) (z : Zone) (d : Dim)
+    (hcap : 0 ≤ z.alloc d) (hpct : ∀ p, s.cap d = some p → 0 ≤ p) :
+    0 ≤ zoneBatchR F k s n hs ps dg zn i z d := by
+  unfold zoneBatchR
+  apply byPolicy_nonneg
+  intro l hl
+  unfold capLimit at hl
+  cases hc : s.cap d with
+  | none => simp [hc] at hl
+  | some p =>
+    simp [hc] at hl
+    have := hF.mul_nonneg _ _ hcap (hpct p hc)
+    rw [← hl]; cases d <;> simp [milli] <;> omega
+
+theorem zone_upper (F : FloatOps) (k : PrioConsts) (s : Strategy) (n : NodeIn) (hs : List HostApp)
+    (ps : List RPod) (dg : List Metric) (zn i : Nat) (z : Zone) (d : Dim) (hpol : s.pol d ≠ .request) :
+    zoneBatchR F k s n hs ps dg zn i z d ≤
+      max (milli d (z.alloc d) - milli d (safetyMargin F s d (z.alloc d))
+            - max (F.divCeil (milli d (n.sys d + hostHPUsed k .batch hs d)) zn) (F.divCeil (milli d (nodeReserved n d)) zn)
+            - literalHP (s.pol d) ((ps.map (zReq F zn i d)).sum)
+                ((ps.map (zChargeUsed F zn i d)).sum + zDangling F zn d dg)
+                ((ps.map (zChargeMax F zn i d)).sum + zDangling F zn d dg)) 0 := by
+  unfold zoneBatchR
+  exact byPolicy_upper _ _ _ _ _ _ _ _ _ _ hpol
+
+theorem zone_pct_cap (F : FloatOps) (k : PrioConsts) (s : Strategy) (n : NodeIn) (hs : List HostApp)
+    (ps : List RPod) (dg : List Metric) (zn i : Nat) (z : Zone) (d : Dim) (pct : Int) (h : s.cap d = some pct) :
+    zoneBatchR F k s n hs ps dg zn i z d ≤ milli d (F.mulPct (z.alloc d) pct) := by
+  unfold zoneBatchR capLimit
+  rw [h]; exact byPolicy_le_limit _ _ _ _ _ _ _ _ _ _
+
+theorem milli_mono (d : Dim) (a b : Int) (h : a ≤ b) : milli d a ≤ milli d b := by
+  cases d <;> simp [milli] <;> omega
+
+theorem zoneShare_mono (F : FloatOps) (hF : FloatOK F) (zn : Nat) (numa : List Int) (i : Nat) (x y : Int)
+    (hzn : 0 < zn) (h : x ≤ y) : zoneShare F zn numa i x ≤ zoneShare F zn numa i y := by
+  unfold zoneShare
+  simp only
+  split
+  · exact hF.div_mono _ _ _ h (by omega)
+  · rename_i hv
+    split
+    · exact hF.div_mono _ _ _ h (by omega)
+    · omega
+
+theorem zone_charges_mono (F : FloatOps) (hF : FloatOK F) (zn i : Nat) (d : Dim) (hzn : 0 < zn) (p q : RPod) (h : PodLe p q) :
+    zReq F zn i d p ≤ zReq F zn i d q ∧ zChargeUsed F zn i d p ≤ zChargeUsed F zn i d q ∧
+    zChargeMax F zn i d p ≤ zChargeMax F zn i d q := by
+  have hr := h.req_le d; have hu := h.used_le d
+  obtain ⟨hl, hm, hn, _⟩ := h
+  have hreq : zReq F zn i d p ≤ zReq F zn i d q := by
+    unfold zReq; rw [← hn]; exact zoneShare_mono F hF zn _ i _ _ hzn (milli_mono d _ _ hr)
+  have huse : zUse F zn i d p ≤ zUse F zn i d q := by
+    unfold zUse; rw [← hn, ← hm]
+    apply zoneShare_mono F hF zn _ i _ _ hzn
+    apply milli_mono
+    cases p.hasMetric <;> simp <;> assumption
+  refine ⟨hreq, ?_, ?_⟩
+  · unfold zChargeUsed; rw [← hl, ← hm]
+    cases p.hasMetric <;> cases p.lse <;> cases d <;> simp <;> assumption
+  · unfold zChargeMax; rw [← hm]
+    cases p.hasMetric <;> simp <;> omega
+
+/-- zone amounts are antitone in the same consumption inputs. -/
+theorem zone_antitone (F : FloatOps) (hF : FloatOK F) (k : PrioConsts) (s s' : Strategy) (n n' : NodeIn)
+    (hs hs' : List HostApp) (ps ps' : List RPod) (dg dg' : List Metric) (zn i : Nat) (z : Zone) (d : Dim)
+    (hzn : 0 < zn) (hpol : s'.pol d = s.pol d) (hcl : s'.cap d = s.cap d) (hthr : s'.thr d ≤ s.thr d)
+    (hcap : n'.cap d = n.cap d) (hz0 : 0 ≤ z.alloc d)
+    (halloc : n'.alloc d ≤ n.alloc d) (hanno : n.anno d ≤ n'.anno d) (hsys : n.sys d ≤ n'.sys d)
+    (hhost : All2 HostLe hs hs') (hhost0 : ∀ x ∈ hs, 0 ≤ x.used d)
+    (hpods : All2 PodLe ps ps') (hdg : All2 MetLe dg dg') :
+    zoneBatchR F k s' n' hs' ps' dg' zn i z d ≤ zoneBatchR F k s n hs ps dg zn i z d := by
+  unfold zoneBatchR capLimit safetyMargin
+  rw [hpol, hcl]
+  have hdgs : zDangling F zn d dg ≤ zDangling F zn d dg' := by
+    unfold zDangling
+    apply sum_map_le2 MetLe _ _ _ _ hdg
+    intro a b h
+    apply hF.div_mono _ _ _ _ (by omega)
+    apply milli_mono
+    cases d <;> simp [Metric.used] <;> [exact h.1; exact h.2]
+  apply byPolicy_antitone
+  · exact milli_mono d _ _ (hF.mul_mono_k _ _ _ hz0 (by omega))
+  · apply hF.div_mono _ _ _ _ (by omega)
+    apply milli_mono
+    unfold nodeReserved kubeletReserved; rw [hcap]; omega
+  · apply hF.div_mono _ _ _ _ (by omega)
+    apply milli_mono
+    have := hostHPUsed_mono k .batch d hs hs' hhost hhost0; omega
+  · exact sum_map_le2 PodLe _ (fun a b h => (zone_charges_mono F hF zn i d hzn a b h).1) _ _ hpods
+  · have := sum_map_le2 PodLe _ (fun a b h => (zone_charges_mono F hF zn i d hzn a b h).2.1) _ _ hpods; omega
+  · have := sum_map_le2 PodLe _ (fun a b h => (zone_charges_mono F hF zn i d hzn a b h).2.2) _ _ hpods; omega
+
+/-- a pod without metrics is charged its (zone share of the) request in every zone, all policies. -/
+theorem zone_no_metric_charged_at_request (F : FloatOps) (zn i : Nat) (d : Dim) (p : RPod) (h : p.hasMetric = false) :
+    zChargeUsed F zn i d p = zReq F zn i d p ∧ zChargeMax F zn i d p = zReq F zn i d p := by
+  simp [zChargeUsed, zChargeMax, h]
+
+/-! ### 8. mid tier: within [0, threshold cap] -/
+
+theorem mid_static_bounds (F : FloatOps) (hF : FloatOK F) (cap reservedPct thrPct : Int)
+    (hcap : 0 ≤ cap) (hr : 0 ≤ reservedPct) (ht : 0 ≤ thrPct) :
+    0 ≤ midStatic F cap reservedPct thrPct ∧ midStatic F cap reservedPct thrPct ≤ F.mulPct cap thrPct := by
+  have h1 := hF.mul_nonneg cap reservedPct hcap hr
+  have h2 := hF.mul_nonneg cap thrPct hcap ht
+  unfold midStatic; simp only
+  split <;> omega
+
+theorem mid_policy_bounds (F : FloatOps) (hF : FloatOK F) (cap unallocated nodeUnused reclaimable unallocPct thrPct : Int)
+    (hcap : 0 ≤ cap) (hu : 0 ≤ unallocated) (hp : 0 ≤ unallocPct) (ht : 0 ≤ thrPct) :
+    0 ≤ midByPolicy F cap unallocated nodeUnused reclaimable unallocPct thrPct ∧
+    midByPolicy F cap unallocated nodeUnused reclaimable unallocPct thrPct ≤ F.mulPct cap thrPct := by
+  have h1 := hF.mul_nonneg unallocated unallocPct hu hp
+  have h2 := hF.mul_nonneg cap thrPct hcap ht
+  unfold midByPolicy; simp only
+  split <;> split <;> split <;> omega
+
+/-- with a threshold ≤ 100 % the mid amount never exceeds the capacity. -/
+theorem mid_le_capacity (F : FloatOps) (hF : FloatOK F) (cap unallocated nodeUnused reclaimable unallocPct thrPct : Int)
+    (hcap : 0 ≤ cap) (hu : 0 ≤ unallocated) (hp : 0 ≤ unallocPct) (ht : 0 ≤ thrPct) (ht' : thrPct ≤ 100) :
+    midByPolicy F cap unallocated nodeUnused reclaimable unallocPct thrPct ≤ cap :=
+  Int.le_trans (mid_policy_bounds F hF cap unallocated nodeUnused reclaimable unallocPct thrPct hcap hu hp ht).2
+    (hF.mul_le _ _ hcap ht ht')
+
+/-! ### class resolution facts used by the statement ("high-priority" = neither batch nor free) -/
+
+theorem hp_iff (p : Prio) : isHP p = true ↔ (p ≠ .batch ∧ p ≠ .free) := by
+  cases p <;> simp [isHP]
+
+/-- a pod whose priority label says batch/free is never charged, whatever else it carries. -/
+theorem label_wins (k : PrioConsts) (l : Prio) (pv : Option Int) (q : QoS) (kq : KubeQoS) (h : l ≠ .none) :
+    prioDefault k (some l) pv q kq = l := by
+  simp [prioDefault, prioRaw, h]
+
+/-! ### non-vacuity: the hypotheses are satisfiable on non-trivial inputs -/
+
+/-- exact rational arithmetic satisfies `FloatOK`. -/
+theorem exactOps_ok : FloatOK exactOps where
+  mul_nonneg v k hv hk := by
+    show 0 ≤ v * k / 100
+    exact Int.ediv_nonneg (Int.mul_nonneg hv hk) (by omega)
+  mul_le v k hv hk h100 := by
+    show v * k / 100 ≤ v
+    have : v * k ≤ v * 100 := Int.mul_le_mul_of_nonneg_left h100 hv
+    omega
+  mul_mono_k v k k' hv h := by
+    show v * k / 100 ≤ v * k' / 100
+    have : v * k ≤ v * k' := Int.mul_le_mul_of_nonneg_left h hv
+    omega
+  div_nonneg a n ha hn := by
+    show 0 ≤ (a + n - 1) / n
+    exact Int.ediv_nonneg (by omega) (by omega)
+  div_mono a b n h hn := by
+    show (a + n - 1) / n ≤ (b + n - 1) / n
+    exact Int.ediv_le_ediv hn (by omega)
+
+def exStrategy : Strategy :=
+  { cpuThr := 65, memThr := 65, cpuPol := .maxUR, memPol := .request, cpuCap := some 50, memCap := none, degradeMin := 15 }
+def exNode : NodeIn := { capC := 100000, capM := 1000, allocC := 98000, allocM := 1000, annoC := 4000, annoM := 0, sysC := 7000, sysM := 100 }
+def exPods : List PodIn :=
+  [ { key := 1, active := true, prio := .prod, qos := .ls, reqC := 40000, reqM := 300, numa := [] },
+    { key := 2, active := true, prio := .batch, qos := .be, reqC := 90000, reqM := 900, numa := [] },
+    { key := 3, active := false, prio := .prod, qos := .ls, reqC := 5000, reqM := 50, numa := [] } ]
+def exMetrics : List Metric :=
+  [ { key := 3, prio := .prod, usedC := 1000, usedM := 10 }, { key := 9, prio := .mid, usedC := 2000, usedM := 20 } ]
+
+/-- DESIGN §5 witness (after the repair): a prod pod requesting 40 CPUs without metrics under
+    maxUsageRequest lowers batch-cpu; here 100 − 35 − 7 − (40 + 1 + 2) = 15 CPUs, memory by request. -/
+example : nodeBatch exactOps stdPrio exStrategy exNode [] exPods exMetrics .cpu = 15000 := by decide
+example : nodeBatch exactOps stdPrio exStrategy exNode [] exPods exMetrics .mem = 350 := by decide
+example : ∃ rp ∈ resolvePods exPods (metricMap exMetrics), rp.hasMetric = false ∧ rp.reqC = 40000 :=
+  ⟨_, List.mem_cons_self, rfl, rfl⟩
+example : calculate exactOps stdPrio exStrategy exNode [] exPods exMetrics [] true 1000 0 = .degraded := by decide
+example : All2 PodLe [({ lse := false, hasMetric := true, reqC := 1, reqM := 1, usedC := 1, usedM := 1, numa := [] } : RPod)]
+    [{ lse := false, hasMetric := true, reqC := 2, reqM := 1, usedC := 5, usedM := 1, numa := [] }] :=
+  .cons ⟨rfl, rfl, rfl, by decide, by decide, by decide, by decide⟩ .nil
 
 end KoordVerif.C09
